@@ -22,11 +22,11 @@ static std::string rep(const char* pat, int n) { std::string s; size_t L = strle
 
 template<class Fam>
 static void add_tasks(std::vector<Task>& tasks, const Config& cfg, const std::string& fam, const std::vector<Cfg>& cfgs, const std::vector<OperandSpec>& menu,
-                      int deep_n, int mix_depth, int mix_max_n, size_t deep_vals, unsigned grid = 64) {
+                      int deep_n, int mix_depth, int mix_max_n, size_t deep_vals, unsigned grid = 64, int long_run = 0, int which = 7) {
   for (size_t ci = 0; ci < cfgs.size(); ++ci) {
     const Cfg c = cfgs[ci];
     std::string tag = fam + "/k" + str(c.k) + (fam.find("req") == 0 ? std::string(c.hra ? "/hra" : "/lra") : "");
-    { // (a) updates only, deep, restricted domain, every coin outcome
+    if (which & 1) { // (a) updates only, deep, restricted domain, every coin outcome
       QuantSys<Fam> sys; sys.nm = tag + "/updates-deep"; sys.slot_cfgs.push_back(c); sys.max_n = deep_n;
       sys.vals.resize(deep_vals);
       sys.add_update_ops(0, true);
@@ -34,10 +34,17 @@ static void add_tasks(std::vector<Task>& tasks, const Config& cfg, const std::st
       Task t; t.name = sys.nm; t.fn = [sys, lim, &cfg](Report& rep) mutable { explore(sys, rep, cfg, lim); };
       tasks.push_back(t);
     }
-    { // (b) updates and merges with the operand menu (lvalue, rvalue, reversed), shallow
+    if (which & 2) { // (b) updates and merges with the operand menu (lvalue, rvalue, reversed), shallow
       QuantSys<Fam> sys; sys.nm = tag + "/merge-mix"; sys.slot_cfgs.push_back(c); sys.max_n = mix_max_n; sys.menu = menu;
       sys.add_update_ops(0, false); sys.add_query_op(0); sys.add_menu_ops();   // a query builds the cached sorted view: later merges must invalidate it
       BfsLimits lim; lim.max_depth = mix_depth; lim.max_states = 1500000; lim.grid = grid;
+      Task t; t.name = sys.nm; t.fn = [sys, lim, &cfg](Report& rep) mutable { explore(sys, rep, cfg, lim); };
+      tasks.push_back(t);
+    }
+    if (long_run && (which & 4)) { // (c) merges (also into the operand) followed by long runs of updates: bookkeeping a merge leaves behind must hold up
+      QuantSys<Fam> sys; sys.nm = tag + "/merge-then-long"; sys.slot_cfgs.push_back(c); sys.max_n = mix_max_n + 2 * long_run + 40; sys.menu = menu; sys.light_check = false;
+      sys.add_update_ops(0, false); sys.add_menu_ops(); sys.add_long_op(long_run, 0); sys.add_long_op(long_run, 1);
+      BfsLimits lim; lim.max_depth = 3; lim.max_states = 1500000; lim.grid = grid;
       Task t; t.name = sys.nm; t.fn = [sys, lim, &cfg](Report& rep) mutable { explore(sys, rep, cfg, lim); };
       tasks.push_back(t);
     }
@@ -65,7 +72,7 @@ int main(int argc, char** argv) {
     m.push_back(opnd<F>("k9n12", 9, true, rep("1203", 12).c_str(), 1)); m.push_back(opnd<F>("k16n3", 16, true, "312", 0)); m.push_back(opnd<F>("k16n20", 16, true, rep("2013", 20).c_str(), 0));
     m.push_back(opnd_merged<F>("k8n2+n26", 8, "03", 8, rep("0312", 26).c_str(), true, 0));      // level 0 empty after the merge
     m.push_back(opnd_merged<F>("k16n20+k9n12", 16, rep("2013", 20).c_str(), 9, rep("1203", 12).c_str(), true, 1));   // min_k below k
-    add_tasks<F>(tasks, cfg, "kll-float", cfgs, m, q ? 19 : 27, q ? 3 : 4, 60, 3);
+    add_tasks<F>(tasks, cfg, "kll-float", cfgs, m, q ? 19 : 27, q ? 3 : 4, 60, 3, 64, 100);
   }
   { // KLL string with a reversing comparator
     typedef KllFam<std::string, std::greater<std::string> > F;
@@ -87,7 +94,14 @@ int main(int argc, char** argv) {
       m.push_back(opnd<F>("n60c1", 4, hra, rep("0132", 60).c_str(), 1)); m.push_back(opnd<F>("k6n40", 6, hra, rep("1230", 40).c_str(), 0));
       m.push_back(opnd_merged<F>("n3+n60", 4, "031", 4, rep("0132", 60).c_str(), hra, 0));
       std::vector<Cfg> sub; for (size_t i = 0; i < cfgs.size(); ++i) if (cfgs[i].hra == hra) sub.push_back(cfgs[i]);
-      add_tasks<F>(tasks, cfg, "req-float", sub, m, q ? 30 : 52, q ? 3 : 4, 120, q ? 2 : 3);
+      add_tasks<F>(tasks, cfg, "req-float", sub, m, q ? 30 : 52, q ? 3 : 4, 120, q ? 2 : 3, 64, 160);
+      // k = 6 is the smallest k whose sections can shrink (nearest even of 6/sqrt2 is the minimum 4), i.e. whose nominal
+      // capacity changes with the number of compactions: operands compacted often enough for that, target of the same k
+      std::vector<OperandSpec> m6; m6.push_back(opnd<F>("empty", 6, hra, "", 0)); m6.push_back(opnd<F>("k6n40", 6, hra, rep("1230", 40).c_str(), 0));
+      m6.push_back(opnd<F>("k6n240c0", 6, hra, rep("0132", 240).c_str(), 0)); m6.push_back(opnd<F>("k6n240c1", 6, hra, rep("3102", 240).c_str(), 1));
+      m6.push_back(opnd<F>("k6n500c1", 6, hra, rep("2013", 500).c_str(), 1));
+      std::vector<Cfg> sub6; { Cfg c6; c6.k = 6; c6.hra = hra; c6.init_coin = 0; sub6.push_back(c6); }
+      add_tasks<F>(tasks, cfg, "req-float", sub6, m6, 0, 0, 520, 2, 64, 300, 4);
     }
   }
   { // classic quantiles, int and string
